@@ -222,7 +222,8 @@ def make_broker(lab: Lab, backend_fail: Callable[[str], bool] = lambda tid: Fals
             i = 0
             while True:
                 if i < len(self.script):
-                    await lab.gate(f"arrive:{i}")
+                    if not getattr(lab, "no_arrival_gates", False):
+                        await lab.gate(f"arrive:{i}")
                     lab.rec("taken", i)
                     yield self.script[i]
                     i += 1
